@@ -119,6 +119,18 @@ SPEC = {
     ("C19_append_reads_nothing_else", "append_to_reads_only_C_and_A", "and depend on no other argument"),
     ("C19_val", "val_ignores_arguments", "val(v) returns v regardless of arguments"),
     ("C19_create", "create_ignores_arguments", "create<T> returns a default T regardless of arguments")]),
+
+ "C17": ("Malformed patterns and grammars are rejected at construction",
+   ["Ctpg.Valid.LRSafe", "Ctpg.Proofs.DriverBasics", "Ctpg.Proofs.SafeDriver", "Ctpg.Proofs.PatternLex", "Ctpg.Proofs.PatternParse", "Ctpg.Proofs.PatternDecode", "Ctpg.Proofs.AnalyzeUndeclared"],
+   [("C17_scanning_never_reads_past_the_end", "no_over_read", "scanning ANY byte string as a pattern, well-formed or not, at any offset, never reads beyond the terminator"),
+    ("C17_tokens_in_range", "lex_at_in_range", "every token the scanner delivers is non-empty, lies inside the pattern and is one of the ten pattern terms"),
+    ("C17_pattern_parse_never_crashes", "pattern_parse_no_crash", "parsing any string as a pattern never performs an out-of-range access"),
+    ("C17_only_wellformed_patterns_get_a_meaning", "parse_pattern_wellformed", "if a pattern gets a meaning then the whole string was scanned into tokens and the token string is derivable in the pattern grammar: nothing outside the syntax is given a meaning"),
+    ("C17_raw_nonprintable_byte_rejected", "nonprintable_rejected", "a raw non-printable byte anywhere (in a set, after a backslash, bytes >= 0x80) makes the pattern invalid"),
+    ("C17_empty_pattern_rejected", "empty_pattern_rejected", "the empty pattern is invalid"),
+    ("C17_unterminated_set_rejected", "unterminated_set_rejected", "an unterminated set is invalid"),
+    ("C17_decoder_stays_inside_the_lexeme", "decoder_in_range", "the set decoder re-scans exactly the lexeme the scanner delivered and reads nothing outside it"),
+    ("C17_undeclared_symbol_rejected", "find_str_none_analyze_none", "a rule mentioning a nonterminal or term that is not declared makes rule analysis fail ('string not found')")]),
  "C01g": None,
 }
 def coq_type(imports, lemma):
